@@ -269,7 +269,7 @@ theorem WInv.step {w : World} (inv : WInv w) (op : Op) : WInv (World.step .manua
       simp only
       split
       · exact inv
-      · have st := insert_step q (inv.ix _ (get_mem hg))
+      · have st := insert_step w.own q (inv.ix _ (get_mem hg))
         split
         · next h s' heq => rw [heq] at st; exact inv.index_step hg st
         · next h s' b heq => rw [heq] at st; exact inv.index_step hg st
@@ -279,7 +279,7 @@ theorem WInv.step {w : World} (inv : WInv w) (op : Op) : WInv (World.step .manua
     | none => exact inv
     | some s =>
       simp only
-      have st := ensureIndex_step s.max t (inv.ix _ (get_mem hg))
+      have st := ensureIndex_step w.own s.max t (inv.ix _ (get_mem hg))
       split
       · next h ix heq => rw [heq] at st; exact inv.index_step (s' := { s with ix }) hg st
       · next h ix i heq => rw [heq] at st; exact inv.index_step (s' := { s with ix }) hg st
@@ -471,6 +471,7 @@ theorem WInv.step {w : World} (inv : WInv w) (op : Op) : WInv (World.step .manua
       have : s.readAll w.heap = w.heap := by
         simp [HStore.readAll, readable_of_inv (inv.ix _ (get_mem hg))]
       rw [this]; exact inv
+  | via own => exact ⟨inv.ix, inv.names, inv.disj, inv.ub⟩
 
 theorem WInv.run {w : World} (inv : WInv w) (ops : List Op) : WInv (World.run .manual w ops) := by
   induction ops generalizing w with
@@ -493,6 +494,7 @@ def opNames : Op → List Nat
   | .take a b => [a, b]
   | .grow a => [a]
   | .readAll a => [a]
+  | .via _ => []
 
 /-- which value a name is bound to only changes for the names an operation mentions (any `Clone`) -/
 theorem step_get_other (ck : CloneKind) (w : World) (op : Op) {n : Nat} (hn : n ∉ opNames op) :
@@ -585,6 +587,7 @@ theorem step_get_other (ck : CloneKind) (w : World) (op : Op) {n : Nat} (hn : n 
   | readAll a =>
     simp only [World.step]
     split <;> rfl
+  | via own => rfl
 
 /-- the cells owned by a store an operation does not name are the same afterwards (manual `Clone`) -/
 theorem step_same_other {w : World} (inv : WInv w) (op : Op) {e : Nat × HStore} (he : e ∈ w.stores)
@@ -601,7 +604,7 @@ theorem step_same_other {w : World} (inv : WInv w) (op : Op) {e : Nat × HStore}
       simp only
       split
       · exact triv
-      · have st := insert_step q (inv.ix _ (get_mem hg))
+      · have st := insert_step w.own q (inv.ix _ (get_mem hg))
         split
         · next h s' heq => rw [heq] at st; exact Same.of_ext st.ext hlt
         · next h s' b heq => rw [heq] at st; exact Same.of_ext st.ext hlt
@@ -611,7 +614,7 @@ theorem step_same_other {w : World} (inv : WInv w) (op : Op) {e : Nat × HStore}
     | none => exact triv
     | some s =>
       simp only
-      have st := ensureIndex_step s.max t (inv.ix _ (get_mem hg))
+      have st := ensureIndex_step w.own s.max t (inv.ix _ (get_mem hg))
       split
       · next h ix heq => rw [heq] at st; exact Same.of_ext st.ext hlt
       · next h ix i heq => rw [heq] at st; exact Same.of_ext st.ext hlt
@@ -678,5 +681,6 @@ theorem step_same_other {w : World} (inv : WInv w) (op : Op) {e : Nat × HStore}
         simp [HStore.readAll, readable_of_inv (inv.ix _ (get_mem hg))]
       simp only [this]
       exact triv
+  | via own => exact triv
 
 end SophiaProofs.HeapP
